@@ -550,7 +550,7 @@ instance : BEq LoopObs := âŸ¨fun a b => a.groups == b.groups && a.fin == b.finâŸ
 def showSegKey (s : Seg) : String := hexOfBytes s.text
 
 def showObsGroup (g : ObsGroup) : String :=
-  (match g.key with | some s => showSegKey s | none => "-") ++ " " ++ g.ins ++ " " ++ g.shape ++ " " ++ showVal g.val.strip
+  (match g.key with | some s => showSegKey s | none => "-") ++ " " ++ g.ins ++ " " ++ g.shape ++ " " ++ showVal (canon g.val.strip)
 
 def parseObsGroup (n : Node) : List String â†’ Option ObsGroup
   | k :: ins :: shape :: rest => do
@@ -561,7 +561,7 @@ def parseObsGroup (n : Node) : List String â†’ Option ObsGroup
   | _ => none
 
 def modelGroupStr (g : LoopGroup) : String :=
-  (match g.key with | some t => hexOfBytes t | none => "-") ++ " " ++ g.ins ++ " " ++ shapeOf g.node ++ " " ++ showVal g.val.strip
+  (match g.key with | some t => hexOfBytes t | none => "-") ++ " " ++ g.ins ++ " " ++ shapeOf g.node ++ " " ++ showVal (canon g.val.strip)
 
 def finStr : LoopEnd â†’ String
   | .done => "done" | .panic => "panic" | .err => "err"
